@@ -384,6 +384,38 @@ def _desugar_reduce(stmts):
     return out
 
 
+def _keyerror_try(stmt):
+    """try: X = D[K]            if K in D:
+    except KeyError: A    ->      X = D[K] ; B
+    else: B                   else: A
+    (a lookup guarded by its own KeyError is a membership test)."""
+    if not (isinstance(stmt, ast.Try) and len(stmt.body) == 1 and
+            len(stmt.handlers) == 1 and not stmt.finalbody):
+        return None
+    hdl = stmt.handlers[0]
+    if hdl.name or hdl.type is None or \
+            ast.unparse(hdl.type) != 'KeyError':
+        return None
+    first = stmt.body[0]
+    value = first.value if isinstance(first, (ast.Assign, ast.Expr)) \
+        else None
+    if not (isinstance(value, ast.Subscript) and
+            isinstance(value.ctx, ast.Load)):
+        return None
+    if any(isinstance(n, (ast.Call, ast.Subscript))
+           for n in ast.walk(value.slice)) or any(
+               isinstance(n, ast.Call) for n in ast.walk(value.value)):
+        return None
+    test = ast.Compare(left=copy.deepcopy(value.slice), ops=[ast.In()],
+                       comparators=[copy.deepcopy(value.value)])
+    new = ast.If(test=test, body=[first] + list(stmt.orelse),
+                 orelse=list(hdl.body))
+    ast.copy_location(new, stmt)
+    for node in ast.walk(test):
+        ast.copy_location(node, stmt)
+    return new
+
+
 def _iterator_temps(stmts):
     """X = CALL(...) ; for T in X: ...  (X not used elsewhere in the list)
     ->  for T in CALL(...): ...   so that adaptors and generator helpers are
@@ -1054,6 +1086,9 @@ class Inliner(object):
         return stmt
 
     def stmt(self, caller, stmt, stack):
+        lookup = _keyerror_try(stmt)
+        if lookup is not None:
+            stmt = lookup
         stmt = self.expr_helpers(caller, stmt, stack)
         if isinstance(stmt, ast.Return) and stmt.value is not None:
             parts = self.desugar_quantifier(stmt)
